@@ -783,8 +783,16 @@ impl Gen {
                 p.number = [1u16, 2, 65535][self.rng.below(3)];
             }
             6 => {
-                let s = self.rng.below(64);
-                p.sq[s] = 0;
+                if self.rng.chance(50) {
+                    let s = self.rng.below(64);
+                    p.sq[s] = 0;
+                } else if let Some(k) = p.king_sq(self.rng.chance(50)) {
+                    let t = self.rng.below(64);
+                    if t != k {
+                        p.sq[t] = p.sq[k];
+                        p.sq[k] = 0;
+                    }
+                }
             }
             _ => {
                 let fen = p.to_fen();
@@ -802,7 +810,14 @@ impl Gen {
                 let c = if pos.sq[s as usize] != 0 && self.rng.chance(40) { 0 } else { self.rng.below(13) as u8 };
                 Edit::Square(s, c)
             }
-            10 | 11 => Edit::Side,
+            10 => Edit::Side,
+            11 => {
+                // relocate a man - kings included, which a one-square edit can never do
+                let men: Vec<usize> = (0..64).filter(|&i| pos.sq[i] != 0).collect();
+                let kings: Vec<usize> = men.iter().copied().filter(|&i| rm::piece_of(pos.sq[i]) == rm::K).collect();
+                let from = if self.rng.chance(60) { kings[self.rng.below(kings.len().max(1)) % kings.len().max(1)] } else { men[self.rng.below(men.len())] };
+                Edit::MoveMan(from as u8, self.rng.below(64) as u8)
+            }
             12..=14 => Edit::Castling(self.rng.below(4) as u8),
             15 | 16 => Edit::Ep(self.rng.below(9) as u8),
             17 | 18 => Edit::Clock([0u16, 1, 50, 99, 100, 150, 65535][self.rng.below(7)]),
